@@ -39,6 +39,10 @@ CHECKS = {
     "C13": ("Schedule.tla: reference semantics Pre_X / Res_X of each public modification (whole next abstract state, hence frame "
             "conditions; relational for heuristics); TraceSched.tla checks every observed (pre, call, post) triple of the walks, "
             "refusals, returned ids, untouched input value", "6-C13"),
+    "C14": ("Circulation.tla: the per-type covering circulation network is built from the abstract instance alone (arcs wherever "
+            "the reference CanReach holds; lexicographic pair costs (vehicles, operating cost)); the flow induced by the tours of "
+            "MinCostFlowSolver::solve (hook snapshot mcf) must be feasible (coverage bounds, allotted tracks, per-type depot "
+            "capacities, balance) and optimal: TLC evaluates Bellman-Ford on the residual network and requires no negative cycle", "6-C14"),
     "C15": ("Transition.tla: the rotation bookkeeping WITH its caches as variables and the documented delta formulas; TLC checks "
             "TransInv (partition, lookup, empty-cycle stack, every counter and total = recomputation) for all operation sequences "
             "up to the bound (MC_Transition) and emits every explored state with a history; rsv trans replays them on the real "
@@ -51,7 +55,6 @@ CHECKS = {
 }
 
 NOT_YET = {
-    "C14": "check under construction in this session (covering circulation)",
     "C18": "check under construction in this session (HTTP service)",
 }
 
